@@ -37,18 +37,15 @@ type shared struct {
 }
 
 func (sh *shared) images() map[string][]byte {
-	m := map[string][]byte{
-		"priv": sh.priv.VerifImage(), "pub": sh.pub.VerifImage(), "peer": sh.peer.VerifImage(),
-		"spriv": sh.spriv.VerifImage(), "spub": sh.spub.VerifImage(),
-		"pt": secp256k1.VerifPointImage(sh.pt), "sc": secp256k1.VerifScalarImage(sh.sc),
-		"sig_r": secp256k1.VerifScalarImage(sh.sig[0]), "sig_s": secp256k1.VerifScalarImage(sh.sig[1]),
+	if deep {
+		return deepImages(sh)
+	}
+	// exported views only (the deep memory images need the verif accessors)
+	return map[string][]byte{
+		"priv": sh.priv.Bytes(), "pub": sh.pub.Bytes(), "peer": sh.peer.Bytes(), "spriv": sh.spriv.Bytes(), "spub": sh.spub.Bytes(),
+		"pt": sh.pt.UncompressedBytes(), "sc": sh.sc.Bytes(), "sig_r": sh.sig[0].Bytes(), "sig_s": sh.sig[1].Bytes(),
 		"dig": append([]byte{}, sh.dig...), "ssig": append([]byte{}, sh.ssig...),
 	}
-	for i, t := range secp256k1.VerifTablesImage() {
-		h := sha256.Sum256(t)
-		m["table"+strconv.Itoa(i)] = h[:]
-	}
-	return m
 }
 
 type concOp struct {
@@ -157,6 +154,19 @@ func concOps() []concOp {
 			b := make([]byte, []int{32, 48, 64, 48}[arg%4])
 			u.FillBytes(b)
 			return hx(new(secp256k1.Point).SetUniformBytes(b).CompressedBytes())
+		}},
+		{"dsm_zero", func(sh *shared, arg int) string { // zero scalars on the variable-time paths (fast paths, early returns)
+			z := secp256k1.NewScalar()
+			var p *secp256k1.Point
+			switch arg % 3 {
+			case 0:
+				p = secp256k1.NewIdentityPoint().DoubleScalarMultBasepointVartime(sh.sc, z, sh.pt)
+			case 1:
+				p = secp256k1.NewIdentityPoint().MultiScalarMultVartime([]*secp256k1.Scalar{z}, []*secp256k1.Point{sh.pt})
+			default:
+				p = secp256k1.NewIdentityPoint().MultiScalarMultVartime([]*secp256k1.Scalar{z, sh.sc}, []*secp256k1.Point{sh.pt, secp256k1.NewIdentityPoint()})
+			}
+			return hx(p.CompressedBytes())
 		}},
 		{"schnorr_sign", func(sh *shared, arg int) string {
 			sig, err := sh.spriv.Sign(&fixedReader{ent(arg)}, msg(arg), nil)
@@ -277,7 +287,34 @@ func driveConc(c *ctx) {
 			}
 		}
 	}
+	// phase 3: every operation on its own, hammered by all goroutines at once (shared state INSIDE one operation — a static scratch
+	// slot, a pooled buffer — needs two callers in the same few instructions; the random mix above rarely puts them there)
 	runtime.GOMAXPROCS(runtime.NumCPU())
+	iters := c.scale(12, 60)
+	for oi, o := range ops {
+		results := make([][]res, G)
+		var wg sync.WaitGroup
+		start := make(chan struct{})
+		for g := 0; g < G; g++ {
+			wg.Add(1)
+			go func(g int) {
+				defer wg.Done()
+				<-start
+				for k := 0; k < iters; k++ {
+					a := (g + k) % nargs
+					results[g] = append(results[g], res{o.name, a, safely(o, sh, a)})
+				}
+			}(g)
+		}
+		close(start)
+		wg.Wait()
+		for g := range results {
+			for k, r := range results[g] {
+				c.E("conc.Call", "round", 1000+oi, "g", g, "seq", k, "op", r.op, "arg", r.arg, "out", r.out)
+				total++
+			}
+		}
+	}
 	after := sh.images()
 	for name, b := range before {
 		c.E("conc.Frame", "obj", name, "same", bytes.Equal(b, after[name]), "before", hx(sha256Sum(b)), "after", hx(sha256Sum(after[name])))
